@@ -140,6 +140,14 @@ static void c_gersh(const M &A, const char *tag) {
     vr::obj o; o.str("k", "gersh").str("tag", tag).d("out", g); o.raw("A", J(A, o)); put(o);
 }
 
+static void c_gersh_scaled(vr::rng &g, int n) {
+    // every row has a diagonal entry +-2^k (k = 0..3): the scaled bound max_i sum_j |a_ij| / |a_ii| is dyadic
+    auto A = vr::random_int(g, n, n, 0.3, 5, g.coin(), true);
+    for (size_t i = 0; i < A->nrows; ++i) for (ptrdiff_t p = A->ptr[i]; p < A->ptr[i+1]; ++p) if (A->col[p] == (ptrdiff_t)i) A->val[p] = std::ldexp(g.coin() ? 1.0 : -1.0, g.range(0, 3));
+    double s = backend::spectral_radius<true>(*A, 0);
+    vr::obj o; o.str("k", "gershs").str("tag", "dyadic"); bool ok = true; o.i("out", vr::dyadic(s, 8, ok)); if (!ok) o.exact = false; o.raw("A", J(*A, o)); put(o);
+}
+
 // ---------------------------------------------------------------- modes
 static void mode_small() {
     // the exhaustive small spaces of KernelsModel / PointwiseModel, through the real code
@@ -190,6 +198,7 @@ static void mode_random(uint64_t seed, int reps, int nmax) {
         c_pointwise(*S, bs, "rand");
         auto D = vr::random_int(g, n, n, da, 3, shuf, true); c_diag(*D, "rand");
         if (r % 3 == 0) c_diag_inv(g, g.range(1, 12));
+        if (r % 2 == 0) c_gersh_scaled(g, g.range(1, 16));
         // block and complex values: judged on the harness' own scalar expansion
         if (r % 3 == 0) {
             int bn = g.range(1, 8), bk = g.range(1, 8), bm = g.range(1, 8);
